@@ -5,6 +5,7 @@ import os
 import posixpath
 import random
 import re
+import shutil
 
 from . import common
 from .common import d_str, d_bool, d_opt, d_list
@@ -18,12 +19,17 @@ RULE = ('path strings are assembled from component classes (empty, ., .., 1-/2-/
         'depth <= 3 are applied to both PosixPath and WindowsPath and to the model. Thorough tier adds the exhaustive sweep '
         'of all strings with <= 4 components over a 7-component alphabet x 3 prefix forms x 2 separators x trailing. A case '
         'is non-trivial when the string contains a special component (empty, ., ..), a backslash, a drive or a trailing '
-        'separator; distinct by exact text of the expression.')
+        'separator; distinct by exact text of the expression. String entry points (Path.ensure, objutils.objectify, the '
+        'builtins relpath/buildpath/relname/generic_file/source_file/header_file/auto_file/directory/header_directory in a '
+        'real BuildContext): the same strings, a third with white space (space, tab, LF, CRLF, VT, NBSP, EM SPACE) put at the '
+        'beginning, the end, both ends or next to a separator; non-trivial when the string differs from its stripped form.')
 TRUSTED = ('the model mirrors ntpath.splitdrive/isabs of CPython 3.12 and the documented posixpath.normpath; the '
            'correspondence stage re-validates this against the running interpreter on every run',
            'os.path.expanduser is outside the model (no generated string starts with a tilde)',
            'direct law checks on the implementation use posixpath.normpath/join of the running interpreter as the notion of '
-           'ordinary path joining')
+           'ordinary path joining',
+           'string entry points: the constructor Path(s, root, ...) of the tree under test is the reference for what a string '
+           'denotes (its own laws are checked by the path-law oracle)')
 EXPLANATION = ''
 
 # ------------------------------------------------------------------------------------------------ generators
@@ -37,11 +43,12 @@ COMP_CLASSES = {
     'dotted': ['a.b', 'foo.c', 'x.tar.gz', 'foo.', 'a..b'],
     'leaddot': ['.hid', '..x', '...', '.a.b'],
     'space': ['a b', ' ', 'my file.txt'],
+    'wsedge': ['data ', ' lead', '\tx', 'x\t', 'n\n', '\nn', ' a b ', '  ', '\t', 'foo.c ', ' .h'],
     'colon': ['c:d', 'C:', 'a:', 'ab:c', ':', '::'],
     'uni': ['\u00e9t\u00e9', '\u65e5'],
 }
 COMP_WEIGHTS = [('empty', 6), ('dot', 8), ('dotdot', 14), ('one', 12), ('two', 8), ('name', 22), ('dotted', 10),
-                ('leaddot', 5), ('space', 5), ('colon', 4), ('uni', 3)]
+                ('leaddot', 5), ('space', 5), ('wsedge', 5), ('colon', 4), ('uni', 3)]
 PREFIX_FORMS = [('rel', '', 48), ('abs', '/', 12), ('absbs', '\\', 4), ('abs2', '//', 2), ('abs3', '///', 2),
                 ('drive', 'C:/', 6), ('drivebs', 'c:\\', 4), ('drive2', 'C://', 1), ('driverel', 'C:', 2),
                 ('unc', '//srv/share/', 4), ('uncbs', '\\\\srv\\share\\', 2), ('unc_short', '//srv/', 1),
@@ -215,6 +222,8 @@ def dec(name, r):
         return d_opt(lambda x: d_list(d_path, x), r)
     if name == 'path.eq':
         return d_opt(d_bool, r)
+    if name == 'path.ensure':
+        return 'unbuilt' if r == [] else d_opt(d_path, r[0])
     raise KeyError(name)
 
 
@@ -956,6 +965,262 @@ def stage_oracle_sets(rep, rng, n):
     rep.stage('oracle:sets', failures=bad)
     return bad
 
+# ------------------------------------------------------------------------------------------------ string entry points
+WS = [' ', '\t', '\n', '  ', ' \t', '\r\n', '\x0b', '\u00a0', '\u2003']
+
+
+def gen_entry_string(rng, rep):
+    """A path string as a build script would write it; a third get white space put at the beginning, the end, both ends,
+    or directly before/after a separator."""
+    s = gen_oracle_string(rng, rep)
+    x = rng.random()
+    if x < 0.35:
+        how = rng.choice(['lead', 'trail', 'both', 'before-sep', 'after-sep', 'only'])
+        rep.count('entry-ws:' + how)
+        w = rng.choice(WS)
+        if how == 'lead':
+            s = w + s
+        elif how == 'trail':
+            s = s + w
+        elif how == 'both':
+            s = w + s + rng.choice(WS)
+        elif how == 'only':
+            s = w
+        elif '/' in s or '\\' in s:
+            i = rng.choice([k for k, ch in enumerate(s) if ch in '/\\'])
+            s = s[:i] + w + s[i:] if how == 'before-sep' else s[:i + 1] + w + s[i + 1:]
+        else:
+            s = s + w
+    return 'x' + s if s.startswith('~') else s
+
+
+ENTRY_CORPUS = ['data ', ' data', 'dir/name ', ' dir/name', 'a b', 'dir /x', 'x/ y', 'foo.txt\t', '\tfoo.txt', 'sub\\leaf ',
+                ' ', ' /', '/ ', ' /abs', '/abs ', 'x\n', '\nx', ' .', '. ', ' ..', '.. ', ' ./x', 'x/. ', ' C:/x', 'C:/x ',
+                '', '.', 'a/', 'a/ ', ' a/', '  ', '\t', 'x\u00a0', '\u00a0x', 'a\r\n']
+
+
+def _ctor(cls, *a, **kw):
+    try:
+        return cls(*a, **kw), None
+    except ValueError as e:
+        return None, 'ValueError'
+
+
+def stage_w_ensure(rep, rng, n):
+    """Path.ensure (objutils.objectify + the constructor) against the model ensure: strings and path objects, plain roots and
+    base paths, the strict form."""
+    P, W, roots, DestDir, BasePath, bpath = impl()
+    calls, res = [], []
+    todo = [([0, s], [0, r], [], [], False) for s in ENTRY_CORPUS for r in (0, 1, 2)]
+    todo += [([0, s], [1, [0, 'sub/dir', [0, 0], [], []]], [], [], st) for s in ENTRY_CORPUS for st in (False, True)]
+    for _ in range(n):
+        if rng.random() < 0.75:
+            th = [0, gen_entry_string(rng, rep)]
+        else:
+            th = [1, gen_expr(rng, rep, 1)]
+        if rng.random() < 0.25:
+            ra = [1, gen_mk(rng, rep, 0)]
+        else:
+            ra = [0, rng.choice([0, 0, 0, 1, 1, 1, 2, 2, 3, 4, 5, 6, 7, 8, 9])]
+        todo.append((th, ra, gen_optbool(rng, 0.7), gen_optbool(rng, 0.6), rng.random() < 0.3))
+    for th, ra, dd, dr, strict in todo:
+        strs = [th[1]] if th[0] == 0 else expr_strings(th[1])
+        if ra[0] == 1:
+            strs += expr_strings(ra[1])
+        if any(x.startswith('~') for x in strs):
+            continue
+        for cls in (P, ):
+            thing = th[1] if th[0] == 0 else try_eval(cls, roots, th[1])
+            root = roots[ra[1]] if ra[0] == 0 else try_eval(cls, roots, ra[1])
+            if thing is None or root is None:
+                r = 'unbuilt'
+            else:
+                try:
+                    r = canon_path(cls.ensure(thing, root, un_opt(dd), un_opt(dr), strict=strict), roots)
+                except ValueError:
+                    r = None
+            rep.case('ens:' + json.dumps([th, ra, dd, dr, strict]), th[0] == 0 and th[1] != th[1].strip())
+            calls.append(('path.ensure', [th, ra, dd, dr, strict])); res.append(r)
+    for c in calls[:2]:
+        rep.sample({'stage': 'W:ensure', 'call': c[0], 'arg': c[1]})
+    return common.compare_model(rep, 'W:ensure', calls, res, dec)
+
+
+class EntryCtx:
+    """A real BuildContext (real Environment on a scratch directory) positioned in the script <base>/build.bfg."""
+
+    def __init__(self, scratch):
+        from bfg9000.environment import Environment
+        from bfg9000 import builtins as B
+        from bfg9000.builtins import builtin
+        from bfg9000.build_inputs import BuildInputs
+        from bfg9000.path import Path, Root, InstallRoot, abspath
+        B.init()
+        self.builtin, self.BuildInputs, self.Path, self.Root = builtin, BuildInputs, Path, Root
+        src, bld = os.path.join(scratch, 'src'), os.path.join(scratch, 'build')
+        os.makedirs(src, exist_ok=True)
+        os.makedirs(bld, exist_ok=True)
+        self.env = Environment(abspath(os.path.join(scratch, 'bfgdir')), 'make', None, abspath(src), abspath(bld))
+        self.env.finalize({InstallRoot.prefix: abspath('/usr/local')}, (False, False), False)
+
+    def context(self, base):
+        build = self.BuildInputs(self.env, self.Path('/'.join(list(base) + ['build.bfg']), self.Root.srcdir))
+        c = self.builtin.BuildContext(self.env, build, None)
+        c.path_stack.append(self.builtin.BuildContext.PathEntry(build.bfgpath))
+        return c
+
+
+def stage_oracle_entry(rep, rng, n, ectx):
+    """The string-accepting entry points denote the location the constructor denotes: Path.ensure / objutils.objectify on
+    both flavours, and the build-script builtins relpath, buildpath, generic_file, source_file, header_file, auto_file,
+    directory, header_directory in a real BuildContext (top-level script and a submodule script). Laws, for every string
+    s (a third with white space at an end or next to a separator): ensure(s, root, ...) and Path(s, root, ...) are both
+    rejected or equal (root, suffix, directory and destdir flags, hash, realised text); ensure(p) is p;
+    ensure(basename(p), parent(p)) == p; builtin(s).path == Path(s, directory of the running script)."""
+    from bfg9000.objutils import objectify
+    P, W, roots, DestDir, BasePath, bpath = impl()
+    bad = 0
+    stats = {}
+    variables = {r: '/V%d' % i for i, r in enumerate(roots)}
+    cases = [(s, r, None, None) for s in ENTRY_CORPUS for r in (0, 1, 2, 3)]
+    for _ in range(n):
+        cases.append((gen_entry_string(rng, rep), rng.choice([0, 0, 1, 1, 2, 3, 5, 7]),
+                      rng.choice([None, None, None, True, False]), rng.choice([None, None, True, False])))
+
+    def fail(law, info, detail, classes=()):
+        nonlocal bad
+        bad += 1
+        stats['fail:' + law] = stats.get('fail:' + law, 0) + 1
+        rep.fail('%s law broken for the string %r (%s): %s' % (law, info['s'], info.get('cls', info.get('builtin')), detail),
+                 dict(info, law=law, detail=detail), classes=classes)
+
+    def agree(law, info, got, gerr, want, werr):
+        """both rejected, or both accepted and the same path in every observable respect"""
+        if (got is None) != (want is None):
+            # the one recorded finding that reaches an entry point: a builtin that rebuilds the accepted relative path from
+            # its drive-like suffix (directory()/header_directory() -> parent/as_directory) raises the drive error
+            cl = ('relative-suffix-drive-like',) if (
+                law == 'builtin_string' and got is None and want is not None and str(gerr) == 'ValueError: ' + DRIVE_ERR and
+                'relative-suffix-drive-like' in classes_of(want)) else ()
+            fail(law, info, 'the entry point %s but the constructor %s' % (
+                'raised ' + str(gerr) if got is None else 'returned %r' % (got,),
+                'raised ' + str(werr) if want is None else 'returns %r' % (want,)), cl)
+            return False
+        if got is None:
+            return True
+        if not (same(got, want, True) and got.root == want.root and got.suffix == want.suffix and
+                bool(got.destdir) == bool(want.destdir) and type(got) is type(want)):
+            fail(law, info, 'the entry point gives %r (directory=%r destdir=%r), the constructor %r (directory=%r destdir=%r)' % (
+                got, got.directory, got.destdir, want, want.directory, want.destdir))
+            return False
+        if got.root in variables and not got.destdir:
+            a, b = got.realize(variables, localize=False), want.realize(variables, localize=False)
+            if a != b:
+                fail(law, info, 'realised as %r, the constructed path as %r' % (a, b))
+                return False
+        return True
+
+    def malformed_unc(s):       # as in stage_oracle_paths: exercised by the W-correspondence only
+        t = s.lstrip(' \t\n\r\x0b\u00a0\u2003')
+        return any(re.match(r'^[/\\]{2}', x) and not re.match(r'^[/\\]{2}(srv[/\\]share|s[/\\]h)[/\\]', x) for x in (s, t))
+    for s, ri, dd, dr in cases:
+        if s.startswith('~') or bad > 200 or malformed_unc(s):
+            continue
+        for cls in (P, W):
+            info = {'kind': 'entry', 'cls': cls.__name__, 's': s, 'root': ri, 'destdir': dd, 'directory': dr}
+            rep.case('en:%s:%r:%d:%r:%r' % (cls.__name__[0], s, ri, dd, dr), s != s.strip())
+            want, werr = _ctor(cls, s, roots[ri], bool(dd), dr)
+            stats['accepted' if want is not None else 'rejected'] = stats.get('accepted' if want is not None else 'rejected', 0) + 1
+            got, gerr = _ctor(cls.ensure, s, roots[ri], bool(dd), dr)
+            agree('ensure_string', info, got, gerr, want, werr)
+            got, gerr = _ctor(objectify, s, cls, cls, root=roots[ri], destdir=bool(dd), directory=dr)
+            agree('objectify_string', info, got, gerr, want, werr)
+            if want is None:
+                continue
+            # a path object is handed back as it is, whatever the other arguments say
+            for kw in ({}, {'root': roots[(ri + 1) % NROOTS]}, {'directory': True}):
+                q = cls.ensure(want, **kw)
+                if q is not want:
+                    fail('ensure_path', info, 'ensure(p%s) returned %r, not the object p = %r' % (
+                        ''.join(', %s=...' % k for k in kw), q, want))
+            if objectify(want, cls, cls, root=roots[ri]) is not want:
+                fail('ensure_path', info, 'objectify(p, Path) did not return p')
+            # below a base path (what relpath() does in a submodule), plain and strict
+            for bs in ('sub', 'sub dir/x '):
+                base = cls(('/' if ri == 2 else '') + bs, roots[ri], directory=True)
+                w2, w2e = _ctor(cls, s, base)
+                g2, g2e = _ctor(cls.ensure, s, base)
+                agree('ensure_string_base', dict(info, base=bs), g2, g2e, w2, w2e)
+                g3, g3e = _ctor(cls.ensure, s, base, strict=True)
+                if w2 is not None and w2.root == base.root:
+                    agree('ensure_string_strict', dict(info, base=bs), g3, g3e, w2, w2e)
+                elif g3 is not None:
+                    fail('ensure_string_strict', dict(info, base=bs), 'strict ensure accepted %r whose root differs from %s' % (
+                        g3, base.root.name))
+            # rebuilding a path from its parent and its leaf name through the entry point
+            if want.suffix and not classes_of(want):
+                try:
+                    par, leaf = want.parent(), want.basename()
+                    q = cls.ensure(leaf, par, None)          # destdir=None: inherited from the parent
+                    if not same(q, cls(leaf, par)) or not same(q, want):
+                        fail('ensure_parent_basename', info, 'ensure(basename(), parent()) = %r, the path is %r' % (q, want))
+                except ValueError as e:
+                    fail('ensure_parent_basename', info, 'raised ValueError: %s' % e)
+
+    # the build-script builtins, in a real context: top-level script and a submodule script
+    Path, Root = ectx.Path, ectx.Root
+    nb = 0
+    bcases = [s for s in ENTRY_CORPUS] + [gen_entry_string(rng, rep) for _ in range(max(40, n // 6))]
+    for s in bcases:
+        if s.startswith('~') or '\0' in s or bad > 400 or malformed_unc(s):
+            continue
+        for base in ([], ['sub'], ['sub dir', 'in ']):
+            c = ectx.context(base)
+            sdir = Path('/'.join(base) + '/' if base else '', Root.srcdir)
+            bdir = Path('/'.join(base) + '/' if base else '', Root.builddir)
+            wsrc, wsrc_e = _ctor(Path, s, sdir)
+            wbld, wbld_e = _ctor(Path, s, bdir)
+            from bfg9000.builtins import path as bp
+            table = [('relpath', lambda: c['relpath'](s), wsrc, wsrc_e),
+                     ('buildpath', lambda: bp.buildpath(c, s), wbld, wbld_e)]
+            isdir = wsrc is not None and wsrc.directory
+            if wsrc is not None and not isdir:
+                table += [(nm, (lambda nm=nm: c[nm](s).path), wsrc, wsrc_e)
+                          for nm in ('generic_file', 'source_file', 'header_file', 'auto_file')]
+            if wsrc is not None:
+                table += [(nm, (lambda nm=nm: c[nm](s).path), wsrc, None)
+                          for nm in ('directory', 'header_directory')]
+            for nm, f, want, werr in table:
+                nb += 1
+                info = {'kind': 'entry-builtin', 'builtin': nm, 's': s, 'script_dir': base}
+                rep.case('eb:%s:%r:%s' % (nm, s, '/'.join(base)), s != s.strip())
+                try:
+                    got, gerr = f(), None
+                except ValueError as e:
+                    got, gerr = None, 'ValueError: %s' % e
+                if nm in ('directory', 'header_directory') and got is not None and want is not None:
+                    # the file object of a directory carries the path as given; only the location is compared
+                    if not (got.root == want.root and got.suffix == want.suffix):
+                        # recorded finding: the accepted relative path with a drive-like first component is rebuilt from its
+                        # suffix and read as an ABSOLUTE path with that very text
+                        fail('builtin_string', info, '%s(%r).path = %r, but Path(s, script directory) = %r' % (nm, s, got, want),
+                             ('relative-suffix-drive-like',) if ('relative-suffix-drive-like' in classes_of(want) and
+                                                                 _sig_reparsed(want, '', got)) else ())
+                    continue
+                agree('builtin_string', info, got, gerr, want, werr)
+            if wsrc is not None and not wsrc.directory:
+                # relname: the name of an output is the suffix of relpath(); a file object built from the string is the
+                # same file as one built from the path
+                try:
+                    nm = bp.relname(c, s)
+                except ValueError as e:
+                    nm = 'ValueError: %s' % e
+                if nm != wsrc.suffix:
+                    fail('builtin_string', {'kind': 'entry-builtin', 'builtin': 'relname', 's': s, 'script_dir': base},
+                         'relname(%r) = %r, expected %r' % (s, nm, wsrc.suffix))
+    rep.stage('oracle:string entry points', cases=len(cases) * 2, builtin_calls=nb, failures=bad, **stats)
+    return bad
+
 
 def run(rep):
     rng = random.Random(rep.seed)
@@ -966,10 +1231,16 @@ def run(rep):
     dis += stage_w_eval(rep, rng, n)
     dis += stage_w_rel(rep, rng, n // 3)
     dis += stage_w_sets(rep, rng, n // 3)
+    dis += stage_w_ensure(rep, rng, n // 2)
     mult = 10 if dis else 1
     found = stage_oracle_paths(rep, rng, n * mult, sweep_exprs() if thorough else ())
     found += stage_oracle_pairs(rep, rng, n // 2 * mult)
     found += stage_oracle_sets(rep, rng, n // 3 * mult)
+    scratch = common.scratch('c12e')
+    try:
+        found += stage_oracle_entry(rep, rng, n // 2 * mult, EntryCtx(scratch))
+    finally:
+        shutil.rmtree(scratch, ignore_errors=True)
     if dis and not rep.n_with_input:
         i, call, iv, mv = dis[0]
         rep.fail('W:%s - model and implementation disagree (%d cases), e.g. %r: impl %r, model %r' % (
